@@ -2,5 +2,5 @@ From Coq Require Import Extraction ExtrOcamlBasic ZArith List QArith.
 From MV Require Import Geo.WindingDefs Geo.MeasureDefs Topo.CheckMeshDefs Geo.Hull3Defs.
 Extraction Language OCaml.
 Extraction "../build/ml/c16_model.ml" hull_check_code hull_input_flat winding_fast volume6 pt_tri_dist2
-  o3 det3 norm2 cross psub check_mesh
+  o3 det3 norm2 cross psub dot fnormal check_mesh
   Qle_bool Qeq_bool Qmult Qplus Qminus Qred inject_Z Z.sqrt Z.mul Z.add Z.sub Z.compare Z.abs.
